@@ -1,21 +1,21 @@
-\* object-graph (quick + thorough): 2 commits x 16 root-tree assignments over 4 pool trees x <= 1 tag x include-tag x thin-pack; negotiation collapsed, fixed pop order
+\* thorough: every pop order with tag chains
 \* (harness/props/c05.py writes the same configuration at run time; TransferCases uses the same constants
 \*  plus SampleMod / SampleSeed)
 SPECIFICATION Spec
 CONSTANTS
   NC = 2
-  NTP = 4
-  NT = 1
+  NTP = 3
+  NT = 2
   MaxHeads = 2
-  MaxWants = 2
+  MaxWants = 1
   Modes = {"detailed"}
-  IncTag = {FALSE, TRUE}
-  Thin = {TRUE}
+  IncTag = {TRUE}
+  Thin = {FALSE}
   SFull = {FALSE}
   Forge = FALSE
   MaxInVain = 2
   AtomicNeg = TRUE
-  PopAny = FALSE
+  PopAny = TRUE
   Bug = "none"
 INVARIANT TypeOK
 INVARIANT Antecedent
